@@ -317,7 +317,7 @@ class Check:
             if nontrivial is None or nontrivial(cases[i], impl_out[i]):
                 self._distinct.add(hashlib.sha1((name + cases[i]).encode()).digest()[:10])
         self.corr.append({"name": name, "cases": n, "disagreements": len(dis),
-                          "first": [{"case": cases[i], "impl": impl_out[i] if i < len(impl_out) else None,
+                          "first": [{"case": cases[i] if i < n else None, "impl": impl_out[i] if i < len(impl_out) else None,
                                      "model": model_out[i] if i < len(model_out) else None} for i in dis[:5]]})
         if cases and len(self.cov["samples"]) < 12:
             k = min(3, n)
